@@ -61,6 +61,9 @@ class Gen:
         r = self.r
         L = {'id': lid, 'version': ver, 'label': self.attr(), 'language': r.choice(['en', 'fr', 'zh-Hant']),
              'email': 'a@b.c', 'license': self.attr(), 'meta': self.meta()}
+        if self.chance(0.12):
+            # a required attribute may be present and empty
+            L[r.choice(['label', 'email', 'license'])] = ''
         if self.chance(0.5):
             L['url'] = 'https://example.org/?a=1&b=2'
         if self.chance(0.4):
